@@ -48,12 +48,24 @@ FIXED = [
  ("C05", "fix: an `anders als` chain counts towards the nesting limit", "directed:else-if-chain-50k:abort:stack-overflow", "`als nee { 1 }` followed by 50 000 times ` anders als nee { 2 }` (a 1 MB file): the chain nests to the right, one level per link, and was the one form of nesting the limit of 256 levels did not count; parser / compiler / tree destructor recursed until the native stack overflowed and the process was aborted. Surfaced when the AddressSanitizer pass of C01 overflowed the harness's own tree conversion on a 4 097-arm chain; then reproduced on the real binary and by C05's new directed cases on the tree before the fix"),
  ("C05", "fix: the lexer skips whitespace and comments in a loop instead of by recursion", "binary-dev-file:newlines-300k:abort:stack-overflow", "a file of 30 000 or more consecutive blanks (or as many empty / comment lines) in front of `1`: Tokenizer::next called itself once per skipped character and per comment; in a build without optimisation (the dev profile, what `cargo run` gives) nothing turns that into a loop, the native stack overflowed and the process was aborted. Reported by the author of seeded change C05-i as seen on the clean tree; the harness's own debug flavour (opt-level 1) had hidden it, so C05 now also runs the shipped binary built in the dev profile; reproduced by its new directed cases on the tree before the fix"),
  ("C05", "fix: the number of calls in progress is limited like the stack", "directed:endless-recursion:no-slots:abort:alloc", "`functie f() { f() } f()`: a function without parameters and locals takes no stack slot, so the `stapel is vol` check never fired; the list of call frames grew until an allocation failed (abort after 2-3 s under a 4 GiB cap, the OOM killer otherwise). Reported by the author of seeded change C05-i as seen on the clean tree; the in-process workers had hidden it behind their instruction budget. Reproduced by C05's new directed cases (run without that budget, and through the binary) on the tree before the fix"),
+ ("C05", "fix: input that is not valid UTF-8 is reported instead of panicking", "binary-file:invalid-utf8-in-a-comment:panic", "a program file with a byte sequence that is not UTF-8 (`1 // \\xff`): `fs::read_to_string(..).unwrap()` panicked (exit 101); the same line typed at the prompt made `read_line(..).unwrap()` panic. Reported by the author of seeded change C05-j as seen on the clean tree (the harness had only ever handed the binary valid UTF-8); reproduced by C05's new binary cases on the tree before the fix"),
+ ("C17", "fix: a failed compilation leaves no constants behind", "directed:many-refused-lines:size-limit-although-the-one-program-is-small:after-refused-lines-only", "a session of 65 600 refused lines (`<literal> + bestaatniet`, a literal of its own each) and then `stel c = 70002`: the constants of refused lines stayed in the retained compiler's pool of 65 535 entries, so every later line with a new literal was refused with `programma is te groot`. Reported by the author of seeded change C17-j as seen on the clean tree; reproduced by C17's new directed session (and the new comparison of a size-limit error with the one program) on the tree before the fix"),
  ("C11", "fix: stop and volgende discard the operands of half-evaluated expressions", "residue:loop-head-height:x = 1 + als i % 2 == 0 { volgende } anders { 2 }", "stop / volgende from inside a half-evaluated expression left the pending operands on the stack: one or more slots of residue per early exit"),
 ]
 
+# genuine defects that are recorded, not repaired: (property, exact signature, what fails)
+KNOWN = [
+ ("C17", "directed:run-time-failures-leave-their-code:size-limit-although-the-one-program-is-small:after-lines-that-failed-while-running", "session `stel a = 1` / 9 000 statements then `[1][5]` (36 KB of code, fails while running) / the same again / `als a == 1 { 2 } anders { 3 }`: the last line is refused with `programma is te groot` although the one program made of the successful lines is tiny — the code of a line that was accepted and then failed while running stays in the session's 64 KiB of jump range (DESIGN §13)"),
+ ("C17", "random:size-limit-although-the-one-program-is-small:after-lines-that-failed-while-running", "the same in a generated session: a line with tens of kilobytes of code fails (or is cut) while running, a later line with a branch or a loop is refused with `programma is te groot` (DESIGN §13)"),
+]
+
+# (the thorough tier repeats the in-process families in an AddressSanitizer build: its signatures carry the prefix `asan:`)
+KNOWN += [(p, "asan:" + sig, what + " [AddressSanitizer pass]") for p, sig, what in KNOWN]
+
 out = {
- "comment": "Genuine defects of dannyvankooten/nederlang found by the checks in /verif. status=fixed entries document a repair (property, commit in /repo, signature the check reported, what failed) and suppress nothing: the check passes on the repaired tree and reports the violation again if it returns. status=known entries (none at the moment) would be reported as KNOWN-FINDING when their exact signature is observed. This file is never written at run time.",
- "findings": [{"property": p, "status": "fixed", "commit": commit(prefix), "signature": sig, "what": what} for p, prefix, sig, what in FIXED],
+ "comment": "Genuine defects of dannyvankooten/nederlang found by the checks in /verif. status=fixed entries document a repair (property, commit in /repo, signature the check reported, what failed) and suppress nothing: the check passes on the repaired tree and reports the violation again if it returns. status=known entries are genuine defects that are recorded and not repaired: a check that observes exactly that signature prints KNOWN-FINDING and still exits 0; any other violation of the same property is reported as usual. This file is never written at run time.",
+ "findings": [{"property": p, "status": "fixed", "commit": commit(prefix), "signature": sig, "what": what} for p, prefix, sig, what in FIXED]
+           + [{"property": p, "status": "known", "signature": sig, "what": what} for p, sig, what in KNOWN],
 }
 json.dump(out, open("/verif/known_findings.json", "w"), indent=1, ensure_ascii=False)
 print(len(out["findings"]), "entries")
